@@ -22,6 +22,7 @@ def groups(tier, seed):
     g("MMC_MALLOC", "m4ri_mmc_malloc")
     g("MMC_CALLOC", "m4ri_mmc_calloc", flags=None)
     g("MMC_FREE", "m4ri_mmc_free")
+    g("MMC_FREE_LEAK", "m4ri_mmc_free + m4ri_mmc_cleanup (every cached or evicted block released exactly once)", flags=["--memory-leak-check"])
     g("MMC_FREE_ZERO", "m4ri_mmc_free (zero-area matrix)")
     g("MMC_CLEANUP", "m4ri_mmc_cleanup", flags=["--memory-leak-check"])
     g("FINI", "mzd_init/mzd_init_window/mzd_free/m4ri_mmc_cleanup (nothing retained)", flags=["--memory-leak-check"], bounded=True, note="rows<=3, cols<=130")
